@@ -340,6 +340,8 @@ impl TCheck for C08 {
             ("cluster_max_size", max_size),
             ("decode_chunk", *rng.pick(&[7u64, 64, 4096])),
             ("decomp_pool_size", *rng.pick(&[1u64, 2, 8])),
+            ("stream_short_read_pm", *rng.pick(&[0u64, 0, 250])),
+            ("stream_short_read_seed", rng.next_u64() >> 1),
         ];
         if one_cpu {
             knobs.retain(|(k, _)| *k != "creator_workers");
